@@ -18,7 +18,7 @@ import (
 type c09hist struct {
 	nA, nAB, nB int  // bundles per repo
 	labels      bool // labels on some bundles
-	big         bool // repo a's first bundle has 1001 files (crosses the index-file boundary of the public API)
+	big         bool // repo a's bundles have 1001 files each (two index files through the public API)
 }
 
 type c09world struct {
@@ -51,7 +51,7 @@ func c09build(h c09hist) *c09world {
 			if i == 1 {
 				files = map[string][]byte{"p": c09contents[1], "d/r": c09contents[0]}
 			}
-			if h.big && rc.repo == "a" && i == 0 {
+			if h.big && rc.repo == "a" { // both bundles of a: in the second one p is the 1001st entry, i.e. in its second index file
 				for k := 0; k < 999; k++ {
 					files[fmt.Sprintf("bulk/f%04d", k)] = []byte(fmt.Sprintf("%d", k%3))
 				}
